@@ -73,7 +73,7 @@ pub fn parse_conditional(
         let first_body = lines[first_body_line_index].content.trim();
         if first_body.starts_with('-')
             && !first_body.starts_with("->")
-            && !first_body.starts_with("- else:")
+            && else_branch_rest(first_body).is_none()
         {
             // Check that the branch looks like "- case_expr: body" (has a colon after stripping -)
             let branch_content = first_body.trim_start_matches('-').trim_start();
@@ -167,17 +167,9 @@ pub fn parse_conditional(
             return Ok(nodes);
         }
 
-        if trimmed == "- else:" {
-            in_else = true;
-            *line_index += 1;
-            if body_line.had_newline {
-                when_false.push(Node::Newline);
-            }
-            continue;
-        }
-
-        // `- else: inline_content` on a single line
-        if let Some(else_content) = trimmed.strip_prefix("- else:") {
+        // `- else:` (however it is spaced: `-else:`, `- else :`), alone or followed by
+        // inline content on the same line
+        if let Some(else_content) = else_branch_rest(trimmed) {
             in_else = true;
             *line_index += 1;
             let rest = else_content.trim();
@@ -316,7 +308,7 @@ pub fn parse_multi_branch_conditional(
             }
 
             let header = header.trim_start();
-            if let Some(rest) = header.strip_prefix("else:") {
+            if let Some(rest) = header.strip_prefix("else").and_then(|rest| rest.trim_start().strip_prefix(':')) {
                 current_condition = None;
                 if !rest.trim().is_empty() {
                     current_nodes.extend(tokenize_inline_content(rest.trim())?);
@@ -457,6 +449,17 @@ pub fn fold_conditional_branches(
     Ok(accumulated_else.unwrap_or_default())
 }
 
+/// What follows the `:` of an else marker (`- else:`, `-else:`, `- else :`), if the line is one.
+/// The blanks around the word are optional in Ink.
+fn else_branch_rest(line: &str) -> Option<&str> {
+    let after_dash = line.strip_prefix('-')?;
+    if after_dash.starts_with('>') {
+        return None;
+    }
+    let after_word = after_dash.trim_start().strip_prefix("else")?;
+    after_word.trim_start().strip_prefix(':')
+}
+
 /// Parse a switch-style conditional `{ expr:\n - Case1: body\n - Case2: body\n - else: body\n }`.
 /// `line_index` points to the first body line (after `{ expr:`).
 fn parse_switch_conditional(
@@ -502,7 +505,7 @@ fn parse_switch_conditional(
             }
 
             let header = header.trim_start();
-            if let Some(rest) = header.strip_prefix("else:") {
+            if let Some(rest) = header.strip_prefix("else").and_then(|rest| rest.trim_start().strip_prefix(':')) {
                 current_case = None; // else branch
                 let rest = rest.trim();
                 if !rest.is_empty() {
